@@ -33,10 +33,12 @@ package standard
 //@ func (*Service).unlockAccount
 //@ requires s != nil
 //@ ensures [verdict] result == core.ResultSucceeded || result == core.ResultDenied || result == core.ResultFailed
+//@ ensures [unlocked] result == core.ResultSucceeded ==> wallet != nil && account != nil && (!implements(account, "e2wtypes.AccountLocker") || wasUnlocked(account) || unlockOk(s.unlocker, account))
 
 //@ func (*Service).preCheck
 //@ requires s != nil
 //@ modifies checkedset
+//@ ensures [unlocked] result2 == core.ResultSucceeded ==> (!implements(result1, "e2wtypes.AccountLocker") || wasUnlocked(result1) || unlockOk(s.unlocker, result1))
 //@ ensures [ok] result2 == core.ResultSucceeded ==> result0 != nil && result1 != nil && result1 == resolved(s, name, pubKey) && result0 == walletOf(result1) && credentials != nil && ckey(credentials.Client, nameOf(result0), nameOf(result1), action) in checkedset
 //@ ensures [none] result2 != core.ResultSucceeded ==> result0 == nil && result1 == nil
 //@ ensures [monotone] forall k string :: old(k in checkedset) ==> k in checkedset
